@@ -15,8 +15,8 @@ CFG = dict(
              "is one call; non-trivial = the call succeeded; distinct = distinct (function, arguments, result) tuples",
         trusted_base=COMMON_TB + ["oracle / accounted-pool keepers replaced by table-driven stubs (not consulted for prices by non-oracle pools)",
                                   "reference value of the weighted-product formula for unequal weights: math/big.Float at 420 bits in the harness"],
-        assumptions=["theorems are about non-oracle pools; the oracle branches of SwapOutAmtGivenIn/SwapInAmtGivenOut are ported and checked differentially, and the value predicates "
-                     "C03.oracle_value / C03.oracle_in_value are evaluated on every real output, but not proved; the bonus is judged on real blocks (driver C03H): over a block's end-block transfers an oracle pool's own account never pays out more value than it takes in at the prices in force, so any bonus comes from the rebalance treasury",
+        assumptions=["the oracle branches of SwapOutAmtGivenIn/SwapInAmtGivenOut are ported, checked differentially, and PROVED to pay out no more value than is paid in at the oracle prices "
+                     "(theorems oracle_value / oracle_in_value, for every weight-breaking fee in [0,1] the port applied - a ghost output compared with the implementation's); the bonus is judged on real blocks (driver C03H): over a block's end-block transfers an oracle pool's own account never pays out more value than it takes in at the prices in force, so any bonus comes from the rebalance treasury",
                      "equal-weight statements are proved about the Lean port; unequal-weight statements are conditional on PowSpec (|Pow(y,w) - y^w| <= 1e-8 on 0<y<=1), which is TESTED against the 420-bit reference (clause C03.pow_spec), not proved",
                      "weighted allowance is 1e-8 of the RESERVE (what PowSpec yields), fees in [0,2%], exact-in trades up to 1000 x the in-reserve"],
         explanation="Theorems C03.* about the Lean port of solveConstantFunctionInvariant/Pow/CalcOutAmtGivenIn/CalcInAmtGivenOut (equal weights: "
